@@ -27,7 +27,7 @@ KANI_HOME = os.path.expanduser("~/.kani/kani-0.68.0")
 KANI_LIB_C = os.path.join(KANI_HOME, "library/kani/kani_lib.c")
 CACHE = os.path.join(VERIF, ".cache")
 NCPU = os.cpu_count() or 4
-MEM_BUDGET_GB = int(os.environ.get("VERIF_MEM_GB", "48"))
+MEM_BUDGET_GB = int(os.environ.get("VERIF_MEM_GB", "54"))
 
 PARENT_FILE = {
     "crate": "src/lib.rs",
@@ -277,25 +277,52 @@ def _limits(mem_gb):
 
 
 def run(cmd, timeout=None, mem_gb=None, cwd=None, stdout_path=None):
-    """Run a command; returns (rc, stdout_text or None, elapsed, status) with status in
-    ok|timeout|error."""
+    """Run a command; returns (rc, stdout_text or None, elapsed, status) with status in ok|timeout.
+    The peak RSS of the child (MB) is left in run.last_rss[threading.get_ident()]."""
     t0 = time.time()
-    out = open(stdout_path, "w") if stdout_path else subprocess.PIPE
-    p = subprocess.Popen(cmd, cwd=cwd, stdout=out, stderr=subprocess.PIPE if stdout_path else subprocess.STDOUT,
-                         text=True, preexec_fn=_limits(mem_gb) if mem_gb else os.setsid)
-    try:
-        so, se = p.communicate(timeout=timeout)
-        st = "ok"
-    except subprocess.TimeoutExpired:
+    if stdout_path:
+        out = open(stdout_path, "w")
+        err = subprocess.DEVNULL
+    else:
+        import tempfile
+        out = tempfile.TemporaryFile(mode="w+")
+        err = subprocess.STDOUT
+    p = subprocess.Popen(cmd, cwd=cwd, stdout=out, stderr=err, text=True,
+                         preexec_fn=_limits(mem_gb) if mem_gb else os.setsid)
+    st = "ok"
+    rc = None
+    rss = 0
+    while True:
         try:
-            os.killpg(p.pid, signal.SIGKILL)
-        except ProcessLookupError:
-            pass
-        so, se = p.communicate()
-        st = "timeout"
+            pid, status, ru = os.wait4(p.pid, os.WNOHANG)
+        except ChildProcessError:
+            rc = p.poll()
+            break
+        if pid != 0:
+            rc = os.waitstatus_to_exitcode(status)
+            rss = ru.ru_maxrss // 1024
+            p.returncode = rc
+            break
+        if timeout is not None and time.time() - t0 > timeout:
+            st = "timeout"
+            try:
+                os.killpg(p.pid, signal.SIGKILL)
+            except ProcessLookupError:
+                pass
+            timeout = None
+        time.sleep(0.05 if time.time() - t0 < 5 else 0.5)
+    so = None
     if stdout_path:
         out.close()
-    return p.returncode, so, time.time() - t0, st
+    else:
+        out.seek(0)
+        so = out.read()
+        out.close()
+    run.last_rss[threading.get_ident()] = rss
+    return rc, so, time.time() - t0, st
+
+
+run.last_rss = {}
 
 
 def list_goto_functions(binary):
@@ -308,6 +335,24 @@ def list_goto_functions(binary):
     return fns
 
 
+# Types whose drop glue only releases memory (plain data: JSON values, strings, vectors, maps, boxes, the crate's
+# own value/error types).  Drop glue of anything else - closures, guards such as Vec's SetLenOnDrop, iterators,
+# locks - is KEPT, because those Drop impls have functional effects (SetLenOnDrop writes the vector length).
+_DATA_TOKENS = set("""serde_json Value Map Number value map number N std core alloc string String vec Vec raw_vec RawVec
+RawVecInner boxed Box result Result option Option error Error ErrorImpl ErrorCode collections BTreeMap btree_map btree borrow Cow str
+u8 u16 u32 u64 usize i8 i16 i32 i64 isize char f64 f32 bool op data array logic numeric js_op Parsed Evaluated Operation
+LazyOperation DataOperation Raw NumParams KeyType Primitive OpArgs Operator LazyOperator DataOperator ops Range Global
+dyn Send Sync marker static mut const ptr Unique NonNull mem ManuallyDrop MaybeUninit""".split())
+
+
+def NODROP(pretty):
+    m = re.match(r"^std::ptr::(?:drop_in_place|drop_glue)::<(.*)>$", pretty)
+    if not m:
+        return False
+    toks = re.findall(r"[A-Za-z_][A-Za-z0-9_]*", m.group(1))
+    return all(t in _DATA_TOKENS for t in toks)
+
+
 CUTSETS = {
     # name: (regex over pretty names, mode, regex over mangled names used to give "noop" bodies)
     #   mode "unreachable": body removed; the driver's generic step turns it into assert(false); assume(false)
@@ -316,7 +361,7 @@ CUTSETS = {
     "maps": (r"BTreeMap<|serde_json::Map<|collections::btree::|btree_map::|btree::", "unreachable", None),
     "vecvalue": (r"Vec<serde_json::Value>.*(clone|drop|eq)|<\[serde_json::Value\]", "unreachable", None),
     "evaluate": (r"<op::(Operation|LazyOperation|DataOperation)(<'_>)? as Parser(<'_>)?>::evaluate", "unreachable", None),
-    "nodrop": (r"(drop_in_place|drop_glue)::<", "noop", ".*(13drop_in_place|9drop_glue).*"),
+    "nodrop": (NODROP, "noop", None),
 }
 
 
@@ -342,14 +387,20 @@ def postprocess(symtab, mangled, workdir, cuts):
             return None, {"error": err}
         fns = list_goto_functions(a)
         args = []
+        noop = []
         for c in cuts:
             rx, mode, mrx = CUTSETS[c]
-            sel = sorted({mg for (pretty, mg) in fns if re.search(rx, pretty)})
-            info["cuts"][c] = {"mode": mode, "functions": len(sel)}
+            pred = rx if callable(rx) else (lambda pretty, rx=rx: re.search(rx, pretty))
+            sel = sorted({mg for (pretty, mg) in fns if pred(pretty)})
+            info["cuts"][c] = {"mode": mode, "functions": len(sel),
+                               "names": sorted({pretty for (pretty, mg) in fns if pred(pretty)})[:40]}
             for f in sel:
                 args += ["--remove-function-body", f]
             if mode == "noop" and sel:
-                args += ["--generate-function-body", mrx, "--generate-function-body-options", "nondet-return"]
+                noop += sel
+        if noop:
+            args += ["--generate-function-body", "(" + "|".join(re.escape(f) for f in noop) + ")",
+                     "--generate-function-body-options", "nondet-return"]
         if args:
             err = step(["goto-instrument"] + args + [a, a])
             if err:
@@ -363,12 +414,32 @@ def postprocess(symtab, mangled, workdir, cuts):
     return a, info
 
 
+DEFAULT_UNWINDSET = [("collections::btree::", 3)]
+
+
+def resolve_unwindset(binary, specs):
+    """specs: list of 'regex=k' over loop ids / pretty function names (from cbmc --show-loops).
+    Per-loop bounds stay CHECKED by unwinding assertions: a too-small bound is reported, never silently truncating."""
+    pairs = list(DEFAULT_UNWINDSET)
+    for sp in specs or []:
+        rx, k = sp.rsplit("=", 1)
+        pairs.append((rx, int(k)))
+    rc, so, _, _ = run(["cbmc", "--show-loops", binary])
+    loops = re.findall(r"^Loop (\S+):\n\s+file .*? function (.*)$", so or "", flags=re.M)
+    out = {}
+    for lid, fn in loops:
+        for rx, k in pairs:          # later (harness-specific) entries win
+            if re.search(rx, fn) or re.search(rx, lid):
+                out[lid] = k
+    return ["%s:%d" % (l, k) for l, k in sorted(out.items())]
+
+
 def cbmc_cmd(binary, unwind, unwindset, extra=None):
     cmd = ["cbmc"] + CBMC_FLAGS
     if unwind is not None:
         cmd += ["--unwind", str(unwind)]
-    for u in unwindset or []:
-        cmd += ["--unwindset", u]
+    if unwindset:
+        cmd += ["--unwindset", ",".join(unwindset)]
     cmd += ["--unwinding-assertions"]
     cmd += [binary, "--json-ui", "--verbosity", "8"] + (extra or [])
     return cmd
